@@ -586,6 +586,16 @@ class DataFileManager:
 
         # Convert path for PyArrow (adds bucket prefix for S3)
         arrow_path = self._get_arrow_path(file_path)
+        if (
+            isinstance(self.storage, LocalStorageBackend)
+            and arrow_path == self.storage._real_base_path()
+        ):
+            # Must name a file INSIDE the table: a path resolving to the root
+            # itself would put the temp file into the root's parent directory.
+            raise ValueError(
+                f"Security Error: path '{file_path}' resolves to the table root itself, "
+                f"not to a file inside it"
+            )
 
         # Convert records to Arrow table to compute statistics before writing
         lower_bounds = None
